@@ -167,7 +167,7 @@ def c19_run(prop, tier, seed):
 P_ASSUME = COMMON_ASSUME + ["the reference evaluator and the AST printer are trusted (guarded by the wrong-reference self-test and the mutation demos)"]
 
 SPECS = {}
-QUICK_FAMILIES = ["shape", "scc", "lat", "agg", "timeout", "ds", "par"]
+QUICK_FAMILIES = ["shape", "scc", "lat", "agg", "timeout", "ds", "par", "sugar"]
 SPECS["C01"] = {"run": prog_check(["shape", "scc"], "C01"), "replay": prog_replay,
                 "technique": "bounded-exhaustive enumeration of programs (compiled by the real macros) x all input databases, compared with a naive reference evaluator",
                 "assumptions": P_ASSUME + ["programs from the families F-shape and F-scc, domain {0,1}"]}
@@ -257,6 +257,11 @@ SPECS["C13"] = {"run": prog_check(["scc", "lat", "agg", "par"], "C13", report_co
 SPECS["C14"] = {"run": prog_check(["timeout"], "C14"), "replay": prog_replay,
                 "technique": "fault enumeration by virtual clock: run_timeout(t) for every t in 0..=M+1 clock readings (every position at which the deadline can strike), single / repeated / double interruptions, then resume; compared with the reference fixpoint",
                 "assumptions": P_ASSUME + ["hook: ascent::internal::Instant has a per-thread virtual mode (1 ns per reading) under the verif-hooks feature", "serial macro"]}
+SPECS["C07"] = {"run": prog_check(["sugar"], "C07"), "replay": prog_replay,
+                "technique": "differential: every sugared program and its hand expansion (by the harness's own expander implementing the documented rules) are both compiled by the real macros and compared with each other and the reference on all inputs",
+                "assumptions": P_ASSUME + ["the harness expander is the documented semantics written down once; the reference evaluator run on the sugared AST directly must agree with it (checked on every input)"]}
+
+
 def ds_check(dsname):
     def run(prop, tier, seed):
         reps = [run_family(prop, "ds", tier, seed, prop, extra_args=["--only-tag", "ds-%s-" % dsname])]
